@@ -824,3 +824,72 @@ def restriction_updates(ctx: Ctx, rule: str) -> None:
              and "if restriction != '':" in src)
     ctx.record(rule, "SIBLING", f"{fa.ref} / {fb.ref}", "both update_restrs: per suffix, a non-empty restriction is appended unless that exact line is already present", same and exact, {},
                "" if same and exact else "node and object restrictions are no longer accumulated alike / by whole lines (a restriction contained in another one's text would be dropped: lazy and eager parsing then differ)")
+
+
+# ---------------------------------------------------------------------- every worker's copy is parsed alike
+def worker_symmetry(ctx: Ctx, rule: str) -> None:
+    """parse_object_trees treats every worker alike: what is registered for a worker never depends on its position.
+
+    Each worker's parse (parse_object_nodes) returns leaves and object stubs restricted by *that* worker's net.  If only the
+    first worker's vm/image objects are registered, a vm variant supported only by a later worker is unknown to the graph and
+    the dependency lookup for it is silently skipped (ValueError swallowed in get_and_parse_nodes...): the later worker's
+    copy lacks setup that the same worker has when parsed alone or first.
+    """
+    fref = f"{G}.parse_object_trees"
+    fn = ctx.repo.func(fref)
+    ctx.touch(fref)
+    loops = [l for l in ast.walk(fn.node) if isinstance(l, ast.For) and "workers" in ast.unparse(l.iter)]
+    if len(loops) != 1:
+        raise AnalysisError(f"{fref}: expected one loop over the workers, found {len(loops)}")
+    loop = loops[0]
+    idx = None
+    if isinstance(loop.iter, ast.Call) and call_name(loop.iter) == "enumerate" and isinstance(loop.target, ast.Tuple) and isinstance(loop.target.elts[0], ast.Name):
+        idx = loop.target.elts[0].id
+    positional = []
+    if idx:
+        for n in ast.walk(loop):
+            tests = []
+            if isinstance(n, (ast.If, ast.While, ast.IfExp)):
+                tests.append(n.test)
+            elif isinstance(n, ast.comprehension):
+                tests += n.ifs
+            elif isinstance(n, ast.Assert):
+                tests.append(n.test)
+            for t in tests:
+                if any(isinstance(x, ast.Name) and x.id == idx for x in ast.walk(t)):
+                    positional.append(ast.unparse(t))
+    ctx.record(rule, "SIBLING", fref, "no branch inside the per-worker parse depends on the worker's position in the nets list", not positional,
+               {"index": idx, "position_dependent_tests": positional},
+               "" if not positional else f"workers are treated differently by position ({positional[0]}): objects or nodes of later workers are registered by another rule than the first worker's, "
+                                         "so a vm variant only a later worker supports is unknown to the graph and its dependencies are silently dropped")
+    # what is registered: all leaves; every stub that is a net or not yet known by id
+    regs = [c for c in calls_in(loop) if call_name(c) == "new_objects" and ast.unparse(c.func.value) == "graph"]
+    nodes = [c for c in calls_in(loop) if call_name(c) == "new_nodes" and ast.unparse(c.func.value) == "graph"]
+    pon = [s for s in ast.walk(loop) if isinstance(s, ast.Assign) and isinstance(s.value, ast.Call) and call_name(s.value) == "parse_object_nodes"]
+    ok_nodes = len(pon) == 1 and isinstance(pon[0].targets[0], ast.Tuple) and len(pon[0].targets[0].elts) == 2 and len(nodes) == 1 \
+        and ast.unparse(nodes[0].args[0]) == ast.unparse(pon[0].targets[0].elts[0])
+    stubs = ast.unparse(pon[0].targets[0].elts[1]) if pon and isinstance(pon[0].targets[0], ast.Tuple) else "stubs"
+    ok_objs = False
+    detail = [ast.unparse(c) for c in regs]
+    if len(regs) == 1:
+        a = regs[0].args[0]
+        if isinstance(a, ast.Name) and a.id == stubs:
+            ok_objs = False  # registering every stub of every worker duplicates the shared vm/image objects
+            detail.append("all stubs of every worker (duplicates)")
+        elif isinstance(a, (ast.ListComp, ast.GeneratorExp)) and len(a.generators) == 1 and ast.unparse(a.generators[0].iter) == stubs \
+                and isinstance(a.generators[0].target, ast.Name) and ast.unparse(a.elt) == a.generators[0].target.id:
+            v = a.generators[0].target.id
+            f = norm.conj([norm.formula(t, rename={v: "_S"}) for t in a.generators[0].ifs])
+            # the "already registered" collection: a local defined in this iteration from graph.objects' ids
+            known = None
+            for s in ast.walk(loop):
+                if isinstance(s, ast.Assign) and len(s.targets) == 1 and isinstance(s.targets[0], ast.Name) and isinstance(s.value, (ast.SetComp, ast.ListComp)) \
+                        and len(s.value.generators) == 1 and ast.unparse(s.value.generators[0].iter) == "graph.objects" and not s.value.generators[0].ifs \
+                        and ast.unparse(s.value.elt) == f"{ast.unparse(s.value.generators[0].target)}.id" and s.lineno < regs[0].lineno:
+                    known = s.targets[0].id
+            if known:
+                want = norm.disj([norm.formula(ast.parse("_S.key == 'nets'", mode="eval").body), norm.formula(ast.parse(f"_S.id not in {known}", mode="eval").body)])
+                ok_objs = norm.equivalent(f, want)
+    ctx.record(rule + "o", "COUNT", fref, "per worker: all its leaves are registered; of its object stubs every net object and every object whose id is not registered yet (no loss, no duplicate)",
+               ok_nodes and ok_objs, {"new_objects": detail, "new_nodes": [ast.unparse(c) for c in nodes]},
+               "" if ok_nodes and ok_objs else "the objects registered for a worker are not 'its nets plus everything not yet known': later workers lose their own vm/image variants (or shared ones are duplicated)")
